@@ -5,6 +5,7 @@ package main
 import (
 	"fmt"
 	"math/rand"
+	"time"
 	"go/token"
 	"go/types"
 	"os"
@@ -57,6 +58,20 @@ type Interp struct {
 	nondets    []Nondet
 	known      []KnownRegion
 	splits     []*Term
+	feasSolver *Solver
+	// fork mode (path-by-path execution): every symbolic branch consumes one decision
+	forkMode  bool
+	decisions []bool
+	decPos    int
+	newWork   [][]bool
+	pathR     *restrictor
+	forced    int
+	feasMemo   map[*Term]bool
+	assumeList []*Term
+	assumeSent int
+	abortSent  int
+	pool       []map[string]uint64
+	poolHits   int
 	needSplit  bool
 	globals    map[*ssa.Global]*Loc
 	finfo      map[*ssa.Function]*FuncInfo
@@ -109,7 +124,7 @@ func NewInterp(prog *ssa.Program, solver *Solver) *Interp {
 		intrinsics: map[string]Intrinsic{}, stubs: map[string]bool{}, overrides: map[string]*ssa.Function{},
 		goInline: map[string]bool{}, maxDepth: 48, unwind: 64,
 		fnStats: map[string]int{}, fnInstrs: map[string]int{}, fset: prog.Fset,
-		heldLocks: map[*Loc]*Term{}, initDone: map[*ssa.Package]bool{},
+		heldLocks: map[*Loc]*Term{}, initDone: map[*ssa.Package]bool{}, feasMemo: map[*Term]bool{},
 	}
 	registerIntrinsics(in)
 	return in
@@ -141,9 +156,68 @@ func trimPath(p string) string {
 	return p
 }
 
+type pathEnd struct{ why string }
+
+// decide resolves a symbolic condition in fork mode: follows the recorded decision prefix, or picks
+// a feasible side and queues the other one.
+func (in *Interp) decide(c *Term) bool {
+	if c.IsConst() {
+		return c.IsTrue()
+	}
+	if in.pathR == nil {
+		in.pathR = newRestrictor(tTrue, 1<<30)
+	}
+	in.pathR.budget = 1 << 30
+	c = in.pathR.term(c)
+	if c.IsConst() {
+		return c.IsTrue()
+	}
+	var v bool
+	if in.decPos < len(in.decisions) {
+		v = in.decisions[in.decPos]
+		in.decPos++
+	} else {
+		ft := in.feasible(c)
+		ff := in.feasible(mkNot(c))
+		switch {
+		case ft && ff:
+			alt := append(append([]bool{}, in.decisions[:in.decPos]...), false)
+			in.newWork = append(in.newWork, alt)
+			v = true
+		case ft:
+			v = true
+			in.forced++
+		case ff:
+			v = false
+			in.forced++
+		default:
+			panic(pathEnd{"infeasible path"})
+		}
+		in.decisions = append(in.decisions, v)
+		in.decPos++
+	}
+	lit := c
+	if !v {
+		lit = mkNot(c)
+	}
+	in.assume = mkAnd(in.assume, lit)
+	in.assumeList = append(in.assumeList, lit)
+	in.pathR.learn(lit)
+	in.pathR.memo = map[*Term]*Term{}
+	return v
+}
+
 func (in *Interp) abort(g *Term, kind, site, msg string) {
 	if g.IsFalse() {
 		return
+	}
+	if in.forkMode {
+		if !in.decide(g) {
+			return
+		}
+		in.aborts = append(in.aborts, Abort{Cond: tTrue, Kind: kind, Site: site, Msg: msg})
+		in.abortAny = tTrue
+		panic(pathEnd{kind + ": " + msg})
 	}
 	in.aborts = append(in.aborts, Abort{Cond: g, Kind: kind, Site: site, Msg: msg})
 	in.abortAny = mkOr(in.abortAny, g)
@@ -168,8 +242,42 @@ func (in *Interp) feasible(g *Term) bool {
 	if in.solver == nil {
 		return true
 	}
+	if v, ok := in.feasMemo[g]; ok {
+		return v
+	}
 	in.feasQ++
-	r, _ := in.solver.Check(append(in.live(), g), nil)
+	if in.feasQ%200 == 0 {
+		fmt.Fprintf(os.Stderr, "progress: %d feasibility queries (%d by pool), %d term nodes, %d aborts, depth %d, in %s\n", in.feasQ, in.poolHits, TermNodes, len(in.aborts), in.depth, strings.Join(in.callStack, " > "))
+	}
+	// 1. model pool: a cached assignment that satisfies the live constraints and g answers "feasible"
+	for _, m := range in.pool {
+		memo := map[*Term]uint64{}
+		if evalTerm(g, m, memo) == 1 && evalTerm(in.assume, m, memo) == 1 {
+			in.poolHits++
+			return true
+		}
+	}
+	t0 := time.Now()
+	var want []*Term
+	for _, n := range in.nondets {
+		want = append(want, n.T)
+	}
+	// aborted paths are not excluded here: a weaker constraint set only prunes less
+	r, model := in.solver.Check([]*Term{in.assume, g}, want)
+	in.feasMemo[g] = r != Unsat
+	if d := time.Since(t0); d > 500*time.Millisecond {
+		fmt.Fprintf(os.Stderr, "slow feasibility query (%v, %s) at %s in %s; %d term nodes\n", d, r, in.curSite, in.callStack[len(in.callStack)-1], TermNodes)
+	}
+	if r == Sat && model != nil {
+		m := map[string]uint64{}
+		for _, n := range in.nondets {
+			m[n.T.name] = model[n.T]
+		}
+		in.pool = append(in.pool, m)
+		if len(in.pool) > 48 {
+			in.pool = in.pool[1:]
+		}
+	}
 	return r != Unsat
 }
 
@@ -268,6 +376,24 @@ func (in *Interp) callFn(caller *Frame, fn *ssa.Function, args []Value, binds []
 		in.abort(g, "unwind", in.site(site), "call depth exceeded at "+key)
 		return in.zeroResults(fn.Signature)
 	}
+	// calls under a guard narrower than the caller's: skip the callee when the guard is infeasible
+	if !in.forkMode && !g.IsTrue() && caller != nil && g != caller.entryG && len(fn.Blocks) > 3 {
+		if !in.feasible(g) {
+			return in.zeroResults(fn.Signature)
+		}
+	}
+	// recursion: ask the solver whether this activation is reachable at all
+	if !g.IsTrue() {
+		rec := 0
+		for _, k := range in.callStack {
+			if k == key {
+				rec++
+			}
+		}
+		if rec >= 1 && !in.feasible(g) {
+			return in.zeroResults(fn.Signature)
+		}
+	}
 	fi := in.info(fn)
 	if fi.err != "" {
 		in.abort(g, "unsupported", in.site(site), fi.err+" in "+key)
@@ -281,8 +407,15 @@ func (in *Interp) callFn(caller *Frame, fn *ssa.Function, args []Value, binds []
 		pendPhi: map[*ssa.Phi]Value{}, exitEnv: map[*Loop]map[ssa.Value]Value{},
 		retG: tFalse, binds: binds, entryG: g, caller: caller,
 	}
+	var rr *restrictor
+	if !g.IsTrue() {
+		rr = newRestrictor(g, 600)
+	}
 	for i, p := range fn.Params {
 		if i < len(args) {
+			if rr != nil {
+				args[i] = rr.value(in, args[i])
+			}
 			fr.env[p] = args[i]
 		} else {
 			fr.env[p] = in.zero(p.Type())
@@ -325,7 +458,7 @@ func (in *Interp) opaqueResults(sig *types.Signature, why string) []Value {
 	for i := range out {
 		t := sig.Results().At(i).Type()
 		if isString(t) {
-			out[i] = &StrVal{Alts: []StrAlt{{G: tTrue, S: "\x00opaque:" + why, Opq: true}}}
+			out[i] = opaqueStr(why)
 		} else {
 			out[i] = &Opaque{why}
 		}
@@ -352,7 +485,12 @@ func (fr *Frame) runLoop(l *Loop) {
 		if g == nil || g.IsFalse() {
 			break
 		}
-		if iter > 0 && !g.IsTrue() && (iter >= 2 || true) {
+		askFrom := 1
+		if strings.HasPrefix(l.header.Comment, "rangeindex") {
+			// index loops over slices terminate syntactically at the interval bound of len
+			askFrom = 1
+		}
+		if iter >= askFrom && !g.IsTrue() {
 			// ask the solver only when the guard is not syntactically decided
 			if !in.feasible(g) {
 				fr.pendG[h] = nil
@@ -408,7 +546,7 @@ func (fr *Frame) runBlock(b *ssa.BasicBlock) {
 	fr.blockG[b.Index] = g
 	fr.g = g
 	if fr.in.trace {
-		fmt.Fprintf(os.Stderr, "%s  block %d (%s) g=%s\n", strings.Repeat(" ", fr.in.depth), b.Index, b.Comment, g.str(2))
+		fmt.Fprintf(os.Stderr, "%s  block %d (%s) [%d terms] g=%s\n", strings.Repeat(" ", fr.in.depth), b.Index, b.Comment, TermNodes, g.str(1))
 	}
 	for _, ins := range b.Instrs {
 		if phi, ok := ins.(*ssa.Phi); ok {
@@ -459,7 +597,7 @@ func (fr *Frame) edge(b *ssa.BasicBlock, si int, g *Term) {
 		if !ok {
 			break
 		}
-		v := fr.val(phi.Edges[pi])
+		v := fr.in.restrictVal(fr.val(phi.Edges[pi]), g)
 		fr.pendPhi[phi] = fr.in.merge(g, v, fr.pendPhi[phi])
 	}
 	if old := fr.pendG[to.Index]; old == nil {
